@@ -189,7 +189,7 @@ def run_impl(rows=None, text=None, fixer_kind="default", tracker="raising", to="
 
 def gen_table(rng, idx, native=False, allow_transposed=True):
     n_col = rng.choice([1, 2, 2, 3, 3, 4, 5])
-    n_row = rng.choice([1, 2, 2, 3, 4])
+    n_row = rng.choice([0, 1, 2, 2, 3, 4])           # 0: header only (name and unit rows, no values)
     transposed = allow_transposed and rng.random() < 0.35
     kinds = [rng.choice(["text", "onoff", "datetime", "num", "num"]) for _ in range(n_col)]
     pool = list(NAMES)
@@ -227,9 +227,10 @@ def inject(rng, tab, native=False, p_defect=0.75):
             d["illegal"][(i, j)] = v
         else:
             d["illegal"][(i, j)] = rng.choice(ILLEGAL[k])
-    if n_col >= 2 and rng.random() < 0.45:
+    # a table without value rows can only have a name defect: aim there more often
+    if n_col >= 2 and rng.random() < (0.8 if n_row == 0 else 0.45):
         inject_dups(rng, tab, d)
-    if not tab["transposed"] and n_col >= 2 and rng.random() < 0.45:
+    if not tab["transposed"] and n_col >= 2 and n_row >= 1 and rng.random() < 0.45:
         for i in rng.sample(range(n_row), rng.choice([1, 1, min(2, n_row)])):
             d["short"][i] = rng.randrange(1, n_col)          # keep the first cell: the row stays in the block
     return d
@@ -475,6 +476,8 @@ def one_case(seed, idx, out, model_ok, ops, pend):
         out.count("cells:" + ("native" if native else "text"))
         for t, d in zip(tabs, defs):
             out.count("orientation:" + ("transposed" if t["transposed"] else "rowwise"))
+            if not t["data"]:
+                out.count("zero-row table" + (" with duplicate name" if d["dups"] else ""))
             out.count("defects:illegal", len(effective_illegal(t, d)))
             out.count("defects:dup", len(d["dups"]))
             out.count("defects:dup named like a replacement", sum(1 for n in d["dups"].values() if "_fixed_" in n))
